@@ -379,8 +379,6 @@ class C07(PropBase):
         LB = 3 if tier == "quick" else 4
         for n in range(0, LB + 1):
             for c in itertools.product(bst, repeat=n):
-                if n == 3 and not rng.chance(1, 3):
-                    continue
                 if n == 4 and not rng.chance(1, 10):
                     continue
                 valid = valids[0] if rng.chance(1, 2) else rng.choice(valids)
